@@ -367,7 +367,10 @@ def build_or_violation(run, names, flavour='n'):
     try:
         return build(names, flavour)
     except BuildError as e:
-        if not e.in_library and compiles_against_head(e.logpath):
+        # names in namespace PhQ::Internal (the tables read by the introspection dump) are implementation details: if the harness no longer compiles because
+        # one of them was renamed or reshaped, no property is known to be broken - that is an ERROR of the harness, not a VIOLATION
+        internal_detail = 'Internal' in e.first_error
+        if not e.in_library and not internal_detail and compiles_against_head(e.logpath):
             run.fails.append(dict(kind='build', key='build/' + e.first_error[:200], log=open(e.logpath).read()[-6000:], binaries=names, flavour=flavour,
                                   msg='the harness for this property compiles against the committed library but not against the working tree: a public member it exercises no longer compiles as before: ' + e.first_error))
             return None
